@@ -90,7 +90,7 @@ def bp_api_stage(work, rep, ev, tier):
     ALL = {'"%s"' % o for o in ("B0", "BF", "BX", "A1", "A4", "A5", "E", "M1", "M4", "M5", "MX", "S", "F")}
     CORE = {'"%s"' % o for o in ("B0", "BF", "A4", "A5", "M1", "E")}
     C = {"MaxCalls": M, "Emit": False, "EndKeepsBegun": False, "SubmitIgnoresBegun": False, "OpSet": ALL}
-    INV = ["BegunConsistent", "FilesAreEnds", "NothingBetweenBlocks", "UnitsAccounted"]
+    INV = ["BegunConsistent", "FilesAreEnds", "NothingBetweenBlocks", "UnitsAccounted", "StatsCoverFiles"]
     cfg = work + "/bpapi.cfg"
     write_cfg(cfg, spec="Spec", constants=C, invariants=INV, deadlock=False)
     r = run_tlc("BlockProcApi", cfg, workers=8, timeout=1500, heap="8g")
@@ -152,7 +152,7 @@ def bp_api_stage(work, rep, ev, tier):
                     wl = [[e[0], e[1]] for e in c["log"]]
                     wf = [{"units": f["units"], "nblk": f["nblk"], "frag": f["frag"], "intact": True} for f in c["files"]]
                     wm = [{"units": u, "written": 1, "intact": True} for u in c["manual"]]
-                    if real["log"] != wl or real["files"] != wf or real["manual"] != wm or real["finish"] != 0:
+                    if real["log"] != wl or real["files"] != wf or real["manual"] != wm or real["finish"] != 0 or real["stats"] != c["stats"]:
                         drift.append({"calls": prog, "real": real, "model": {"log": wl, "files": wf, "manual": wm}})
             if what and what[0] not in seen:
                 seen.add(what[0])
